@@ -159,7 +159,10 @@ def run(ctx) -> list[Inst]:
         rf = prog.func(cd['reader'])
         props = cd['props']
         W = ws.of_func(wf)
-        Rf = reader_facts(ctx, rf, cd['root'])
+        # the serialised record is the first parameter after cls / self (not a spelling of the plan)
+        rparams = [p for p in rf.params if p not in ('cls', 'self')]
+        root = rparams[0] if rparams else cd['root']
+        Rf = reader_facts(ctx, rf, root)
         if len(W) < 5 or len(Rf) < 5:
             raise AnalysisError(f"R8: shape extraction for the {cd['name']} codec found too little "
                                 f"({len(W)} written, {len(Rf)} read keys): idiom not recognised")
@@ -300,6 +303,8 @@ def run(ctx) -> list[Inst]:
                 continue
             org = key_origin(ctx, w.func, w.keyexpr, w.node)
             ktxt = stmt_text(w.keyexpr)
+            if org is not None and org[0] == 'attr':
+                ktxt = f'{org[1]}.{org[2]}'       # resolved origin, independent of local spellings
             construct = f"(iv) {cd['name']}: mapping {'/'.join(norm(w.path))} keyed by {ktxt}"
             if construct in seen_iv:
                 continue
@@ -375,7 +380,9 @@ def _id_keys(ctx) -> list[Inst]:
     for (fname, root, props) in work:
         if not prog.has_func(fname):
             continue
-        todo = [(prog.func(fname), {root: 'record'})]
+        f0 = prog.func(fname)
+        rparams = [p for p in f0.params if p not in ('cls', 'self')]
+        todo = [(f0, {(rparams[0] if rparams else root): 'record'})]
         done = set()
         while todo:
             f, seeds = todo.pop()
